@@ -146,6 +146,8 @@ def h06(E, M, case):
     for i, ev in enumerate(evs):
         t = t + E.int("dt%d" % i, 0, 2**40)
         kind = ev[0]
+        # nothing shares a loop iteration with a connection loss that precedes it
+        join = not (i > 0 and evs[i - 1][0] == "lost")
         if kind in ("sub", "stopsub", "rebootmsg"):
             a = ev[4] if kind != "rebootmsg" else ev[1]
             rb = ev[5] if kind != "rebootmsg" else 1
@@ -173,16 +175,16 @@ def h06(E, M, case):
                     last_inject[0] = len(log)
                 prot.datagram_received(d, addr, False)
 
-            sc.at(t, cb, "ev%d" % i)
+            sc.at(t, cb, "ev%d" % i, joinable=join)
         else:
             if kind == "svc_stop":
-                sc.at(t, lambda: prot.announcer.stop_announce_service(inst), "ev%d" % i)
+                sc.at(t, lambda: prot.announcer.stop_announce_service(inst), "ev%d" % i, joinable=join)
                 running = False
             elif kind == "svc_start":
                 sc.at(t, lambda: prot.announcer.announce_service(inst), "ev%d" % i, joinable=False)
                 running = True
             elif kind == "ann_stop":
-                sc.at(t, prot.announcer.stop, "ev%d" % i)
+                sc.at(t, prot.announcer.stop, "ev%d" % i, joinable=join)
                 running = False
             elif kind == "ann_start":
                 # the application restarts after it saw the stop: never in the very batch
